@@ -51,6 +51,16 @@ CHECKS = {
              'store and undo paths, tpc_vote returning exactly the resolved oids.',
         note='file storage paths; demo path in C16',
         design='6/C10'),
+    'C07': dict(
+        technique='TLA+ transcription of the FileStorage packer and of MappingStorage.pack at history level checked by TLC '
+                  'against the relation PackOK; TLC behaviours with packs replayed on both storages',
+        text='PackOK (snapshots >= T of reachable objects unchanged, post-T transactions unchanged, only superseded or '
+             'unreachable revisions removed, failed/redundant packs change nothing, immediate re-pack is a no-op) is checked '
+             'by TLC on the transcriptions exhaustively for small constants and along every simulated behaviour; '
+             'conformance: the real packed history and all queries on the record chain equal the transcription result, '
+             'including commits, undos and reopen after the pack.',
+        note='history level (bytes of the pack in C08/C09 machinery); pack times at second boundaries; blobs in C13',
+        design='6/C07'),
     'C20': dict(
         technique='TLA+ spec ZStorage action property OidFresh model-checked by TLC; allocation-heavy TLC behaviours '
                   'replayed with an independent freshness monitor on every new_oid',
